@@ -508,9 +508,73 @@ def eval_pool(ctx, pg, cfg, q):
 
 
 # ----------------------------------------------------------------------------------------------- driver
+# ----------------------------------------------------------------------------------------------- (e) shared argument objects
+def eval_alias(ctx, pg, rng, quick):
+    """two Coalescents built from the SAME argument objects (LocusConfig, Demography, model, LineageConfig); the second may pass
+    another recombination rate / sample / end time. Whatever is done with the second, the statistics of the first are those of
+    a Coalescent built from fresh, unshared arguments."""
+    two = rng.random() < 0.6
+    names = list(rng.choice(gen.NAME_SETS)[:1 if two else rng.choice([1, 1, 2])])     # two loci: one deme, 2 -> 3 lineages
+    n_a = {p: rng.randint(1, 2) for p in names}
+    if sum(n_a.values()) < 2 or two:
+        n_a[names[0]] = 2
+    sizes = {p: {0: gen.dyadic(rng, -1, 2), 0.5: gen.dyadic(rng, -1, 2)} for p in names}
+    mig = {(a, b): gen.dyadic(rng, -2, 1) for a in names for b in names if a != b}
+    model_spec = ('kingman',) if two else rng.choice([('kingman',), ('beta', 1.5, True), ('dirac', 0.5, 1.0, True)])
+    r_a, r_b = rng.sample([0.0, 0.125, 1.0, 5.0], 2)
+    unl = rng.choice([0, 0, 1])
+
+    def fresh_args():
+        return dict(dem=pg.Demography(pop_sizes={p: dict(v) for p, v in sizes.items()}, migration_rates=dict(mig) if mig else None),
+                    model=conv.make_model(pg, model_spec), lc=pg.LocusConfig(n=2, n_unlinked=unl) if two else None)
+
+    def build(args, n, r, **kw):
+        k = dict(n=dict(n), demography=args['dem'], model=args['model'], parallelize=False, pbar=False, **kw)
+        if two:
+            k.update(loci=args['lc'], recombination_rate=r)
+        return pg.Coalescent(**k)
+
+    def stats(c):
+        out = [float(c.tree_height.mean), float(c.tree_height.var), float(c.total_branch_length.mean)]
+        if two:
+            out += [float(c.tree_height.loci.cov[0, 1])]
+        return out
+
+    shared = fresh_args()
+    n_b = dict(n_a)
+    n_b[names[0]] += 1
+    if rng.random() < 0.3:
+        n_b['extra_' + names[0]] = 0                 # a population the demography does not know yet (no lineages: isolated)
+    order = rng.choice(['B-built-before-A-is-queried', 'A-queried-then-B', 'B-queried-before-A'])
+    with C.LogCapture() as lc:
+        A = build(shared, n_a, r_a)
+        if order == 'A-queried-then-B':
+            first = stats(A)
+        B = build(shared, n_b, r_b, **({'end_time': 2.0} if rng.random() < 0.3 else {}))
+        if order == 'B-queried-before-A':
+            stats(B)
+        got = stats(A)
+        stats(B)
+        again = stats(build(shared, n_a, r_a))      # a third object from the same (by now much used) arguments
+        want = stats(build(fresh_args(), n_a, r_a))
+    ctx.case(dict(mode='alias', two_loci=two, order=order, n_a=n_a, n_b=n_b, r=[r_a, r_b]), ('alias', two, order, str(n_a), r_a, r_b))
+    ctx.count(f'alias:{order}'); ctx.count('alias:two-loci' if two else 'alias:one-locus')
+    if lc.records:
+        ctx.count('alias:warned'); return
+    for name, obs in (('first-object', got), ('third-object', again)):
+        if not all(C.close(a, b, REL, ABS) for a, b in zip(obs, want)):
+            ctx.violation(f'alias:{name}:{"two-loci" if two else "one-locus"}', mode='alias', two_loci=two, order=order, names=names,
+                          n_a=n_a, n_b=n_b, sizes=sizes, mig={str(k): v for k, v in mig.items()}, model=list(model_spec), r_a=r_a, r_b=r_b,
+                          n_unlinked=unl, expected=want, observed=obs,
+                          oracle='statistics [th.mean, th.var, tbl.mean(, loci cov)] of a Coalescent built from fresh argument objects')
+            return
+
+
 def one(ctx, item):
     pg = C.import_phasegen()
     mode, i = item
+    if mode == 'alias':
+        return eval_alias(ctx, pg, random.Random(f'{ctx.seed}-c17-{item}'), ctx.quick)
     rng = random.Random(f'{ctx.seed}-c17-{item}')
     quick = ctx.quick
     if mode in ('hist', 'hist-off'):
@@ -531,7 +595,8 @@ def run(ctx):
     import check
     q = ctx.quick
     items = [('hist', i) for i in range(600 if q else 5000)] + [('hist-off', i) for i in range(300 if q else 2500)] + \
-            [('shared', i) for i in range(400 if q else 3000)] + [('unshared', i) for i in range(100 if q else 800)]
+            [('shared', i) for i in range(400 if q else 3000)] + [('unshared', i) for i in range(100 if q else 800)] + \
+            [('alias', i) for i in range(96 if q else 800)]
     ctx.rng.shuffle(items)
     check.pmap(ctx, 'props.c17', 'one', items, case_timeout=240 if q else 900)
 
